@@ -1,4 +1,5 @@
 pub mod c01;
+pub mod c04;
 pub mod c06;
 pub mod c07;
 
@@ -7,6 +8,7 @@ use crate::core::Report;
 pub fn dispatch(p: &str, rep: &mut Report) -> bool {
     match p {
         "C01" => c01::run(rep),
+        "C04" => c04::run(rep),
         "C06" => c06::run(rep),
         "C07" => c07::run(rep),
         _ => return false,
